@@ -41,7 +41,6 @@ inductive Err
   | tooManyThreads | badScheduler
   -- late command-line handling inside the started runtime: pika::init returns -1
   | unknownOption
-  | lateParse      -- same stage: the re-assembled command line does not parse
   deriving DecidableEq, Repr
 
 inductive Stop
@@ -538,13 +537,6 @@ def schedulerPolicy (s : String) : Option Nat :=
 def entryArgv (allowUnknown : Bool) (p : Parsed) : List String :=
   if allowUnknown then p.mixed.filter (fun a => !isPrefix "--pika:" a) else p.pos
 
-/-- the token list seen by the second parse of `handle_late_commandline_options` when it
-    differs from the original one -/
-def lateGlue (pre argv : List String) : Option (List String) :=
-  match pre.reverse, argv with
-  | last :: revInit, a :: rest => some (revInit.reverse ++ [last ++ a] ++ rest)
-  | _, _ => none
-
 def envFun (env : List (String × String)) : String → Option String :=
   fun v => (env.find? (fun p => p.1 == v)).map (·.2)
 
@@ -572,26 +564,13 @@ def configure (m : Machine) (vm : Vm) : M (Resolved × List (String × String)) 
   let r ← handleHp vm r
   pure (r, writeBack cfg0 r)
 
-/-- the late re-parse of the re-assembled command line -/
-def lateCheck (pre argv : List String) : M Unit :=
-  -- the command line is re-assembled from the ini entries
-  -- pika.commandline.{command,prepend_options,options}; the leading blank of `options` is lost
-  -- when the entry is stored, so the last prepended token and argv[1] are glued together
-  match lateGlue pre argv with
-  | some late =>
-    match (do let q ← tokenize cliOpts (late.length + 1) Parsed.empty late; storeCheck [] q.occ) with
-    | .ok _ => pure ()
-    | .error (.err _) => fail .lateParse
-    | .error (.unsup w) => unsup w
-  | none => pure ()
-
 /-- number of worker threads of the default pool -/
 def workersOf (m : Machine) (bind : String) (threads : Nat) : Nat :=
   if bind == "none" then min threads m.pus else threads
 
 /-- Stage 3: what happens after command-line handling (affinity set-up, scheduler selection,
     runtime start, late command-line handling, entry function). -/
-def startStage (m : Machine) (pre argv : List String) (p : Parsed) (r : Resolved)
+def startStage (m : Machine) (_pre _argv : List String) (p : Parsed) (r : Resolved)
     (cfg : List (String × String)) : M Report := do
   -- affinity_data::init / parse_affinity_options read the final configuration
   let avail := if r.useMask then m.maskPus else m.pus
@@ -613,7 +592,7 @@ def startStage (m : Machine) (pre argv : List String) (p : Parsed) (r : Resolved
   -- late command-line handling
   let allowUnknown := cfgLookup cfg "pika.commandline.allow_unknown" != "0"
   check (!p.unreg.isEmpty && !allowUnknown) .unknownOption
-  lateCheck pre argv
+  -- (the second late parse sees the same tokens again: prepended options, then argv)
   pure { workers := workersOf m bind r.threads,
          policy, stackSmall, cfg, argv := entryArgv allowUnknown p }
 
